@@ -100,6 +100,33 @@ theorem mem_erase {k : κ} {l : List (κ × ν)} {p : κ × ν} (h : p ∈ AList
       · rw [h]; exact List.mem_cons_self
       · exact List.mem_cons_of_mem _ (ih h)
 
+theorem get_eraseKey_same (k : κ) (l : List (κ × ν)) : AList.get k (eraseKey k l) = none := by
+  induction l with
+  | nil => rfl
+  | cons hd t ih =>
+    obtain ⟨k', v'⟩ := hd
+    unfold eraseKey at ih ⊢
+    by_cases hk : k' = k
+    · simp [List.filter, hk] at ih ⊢; exact ih
+    · simp [List.filter, hk, AList.get] at ih ⊢; exact ih
+
+theorem get_eraseKey_other {k k' : κ} (l : List (κ × ν)) (h : k' ≠ k) : AList.get k' (eraseKey k l) = AList.get k' l := by
+  induction l with
+  | nil => rfl
+  | cons hd t ih =>
+    obtain ⟨k2, v2⟩ := hd
+    unfold eraseKey at ih ⊢
+    by_cases hk : k2 = k
+    · subst hk
+      simp [List.filter, AList.get, Ne.symm h] at ih ⊢; exact ih
+    · by_cases hk' : k2 = k'
+      · subst hk'; simp [List.filter, hk, AList.get]
+      · simp [List.filter, hk, AList.get, hk'] at ih ⊢; exact ih
+
+theorem mem_eraseKey {k : κ} {l : List (κ × ν)} {p : κ × ν} (h : p ∈ eraseKey k l) : p ∈ l := by
+  unfold eraseKey at h
+  exact (List.mem_filter.1 h).1
+
 theorem mem_of_get {k : κ} {v : ν} {l : List (κ × ν)} (h : AList.get k l = some v) : (k, v) ∈ l := by
   induction l with
   | nil => simp [AList.get] at h
@@ -338,8 +365,8 @@ theorem frame_setRev {w : W} {q : Quoted} {r : Rev} {A : Quoted → Prop} (ha : 
   · exact Or.inl h
 
 theorem frame_eraseRev (w : W) (q : Quoted) (A : Quoted → Prop) :
-    Frame w { w with cl := { w.cl with revs := AList.erase q w.cl.revs } } A :=
-  ⟨fun j => Nat.le_refl _, fun _ _ hm => Or.inl (mem_erase hm)⟩
+    Frame w { w with cl := { w.cl with revs := eraseKey q w.cl.revs } } A :=
+  ⟨fun j => Nat.le_refl _, fun _ _ hm => Or.inl (mem_eraseKey hm)⟩
 
 
 
